@@ -61,6 +61,13 @@ ASSUMPTIONS = [
     "era limits: -2000 January 1.0 (Julian) = JDE 990557.5 and 4000 January 1.0 = JDE 3182029.5; refusals asserted "
     "from 1e-3 d outside, and only for JDE >= 0 (year -4712 on), the domain of Epoch",
     "queries raising inside a sweep suspend the gap check across them and are reported as a component of the violation",
+    "known-finding signatures are per site with an envelope (NODE_ENV, APSIS_ENV, WINDOW_PLANETS); a change that only "
+    "makes the Jupiter/Saturn 'Invalid interval' refusal more frequent is indistinguishable from the listed finding",
+    "sensitivity (mutants/C13.json, run on the tree with fixes_proposed/C13-perihelion-julian-year.diff applied): 20 of 20 "
+    "above-tolerance mutants caught in the quick tier (round->int, transposed period / coefficient / mean-anomaly "
+    "constants, m0 swap, aphelion +-0.5, 1721060->1721600, range limit, k^2 sign, two mutants at known-finding sites); "
+    "1 below-tolerance mutant (0.54 d < 1 d) missed as expected; defects below the stated accuracy are invisible "
+    "(e.g. Mercury.station_longitude_2 lacks its -0.1733 cos 3M term, 0.17 d, pinned by a test)",
 ]
 
 # ----------------------------------------------------------------------------- sites
